@@ -141,3 +141,84 @@ Definition unmodelled_kinds : list string := [
   "DropStreamCommand"; "UpdatePtVersionCommand"; "SetNodeSegregateStatusCommand"; "RemoveNodeCommand";
   "UpdateReplicationCommand"; "UpdateMeasurementCommand"; "InsertFilesCommand"; "ReplaceMergeShardsCommand"; "RecoverMetaData"
 ].
+
+(* ---- value-level gaps of the snapshot encoding ----
+   `c15 values` (harness/cmd/c15/values.go) sets every leaf of a populated catalogue, one at a time, to the boundary values
+   of its Go type and sends the catalogue through Clone -> MarshalBinary -> UnmarshalBinary. Gen_Values.value_mismatches
+   lists (context path, value class, outcome) of every leaf that does not come back. Each must be explained here:
+     identity     the field is the key under which unmarshal files the object (the object is found under its new name)
+     finding:ID   a recorded finding (open: reported as KNOWN-FINDING; fixed and back: a violation)
+     see:ID       an instance of a finding recorded under another property
+     unreachable  no registered command can store that value (the reason follows)
+     derived      recomputed by Unmarshal
+     outside      outside the catalogue parts the statement lists
+   "*" stands for every value class of the type. Outcomes other than differs / lost (errors, panics) are never accepted. *)
+Definition G (ctx cls outc why : string) : string * string * string * string := (ctx, cls, outc, why).
+Definition value_gaps : list (string * string * string * string) := [
+  G "/Databases/[*]/Name" "*" "lost" "identity";
+  G "/Databases/[*]/RetentionPolicies/[*]/Name" "*" "lost" "identity";
+  G "/Databases/[*]/RetentionPolicies/[*]/Measurements/[*]/Name" "*" "lost" "identity";
+  G "/Databases/[*]/ContinuousQueries/[*]/Name" "*" "lost" "identity";
+  G "/Streams/[*]/Name" "*" "lost" "identity";
+  G "/MigrateEvents/[*]/eventId" "*" "lost" "identity";
+  G "/AdminUserExists" "false" "differs" "derived";
+  G "/DataNodes/[*]/Index" "*" "differs" "finding:C15-datanode-index-not-persisted";
+  G "/SqlNodes/[*]/Index" "*" "differs" "finding:C15-datanode-index-not-persisted";
+  G "/Databases/[*]/ContinuousQueries/[*]/LastRunTime" "zero-time" "differs" "finding:C15-cq-lastruntime-zero";
+  G "/Databases/[*]/ContinuousQueries/[*]/LastRunTime" "after-int64-ns" "differs" "unreachable: set from an int64 of nanoseconds";
+  G "/Databases/[*]/ContinuousQueries/[*]/LastRunTime" "before-int64-ns" "differs" "unreachable: set from an int64 of nanoseconds";
+  G "/Databases/[*]/ShardKey/Type" "*" "differs" "finding:C15-database-shardkey-type-dropped";
+  G "/Databases/[*]/ShardKey/ShardGroup" "*" "differs" "finding:C15-database-shardkey-type-dropped";
+  G "/Databases/[*]/ReplicaN" "0" "differs" "unreachable: the handler passes at least 1";
+  G "/Databases/[*]/RetentionPolicies/[*]/ReplicaN" "-1" "differs" "unreachable: the command carries a uint32";
+  G "/Databases/[*]/RetentionPolicies/[*]/ReplicaN" "max-int64" "differs" "unreachable: the command carries a uint32";
+  G "/Databases/[*]/RetentionPolicies/[*]/ReplicaN" "max-uint32+1" "differs" "unreachable: the command carries a uint32";
+  G "/Databases/[*]/RetentionPolicies/[*]/ReplicaN" "min-int32-1" "differs" "unreachable: the command carries a uint32";
+  G "/Databases/[*]/RetentionPolicies/[*]/ShardGroups/[*]/StartTime" "zero-time" "differs" "unreachable: no group starts in year 1 (0 on the wire is the epoch)";
+  G "/Databases/[*]/RetentionPolicies/[*]/ShardGroups/[*]/StartTime" "before-int64-ns" "differs" "see:C16-restore-wraps-early-group-start";
+  G "/Databases/[*]/RetentionPolicies/[*]/ShardGroups/[*]/StartTime" "after-int64-ns" "differs" "unreachable: instants of commands are int64 nanoseconds";
+  G "/Databases/[*]/RetentionPolicies/[*]/ShardGroups/[*]/EndTime" "zero-time" "differs" "unreachable: no group ends in year 1";
+  G "/Databases/[*]/RetentionPolicies/[*]/ShardGroups/[*]/EndTime" "before-int64-ns" "differs" "see:C16-restore-wraps-early-group-start";
+  G "/Databases/[*]/RetentionPolicies/[*]/ShardGroups/[*]/EndTime" "after-int64-ns" "differs" "unreachable: ends are capped at MaxNanoTime + 1";
+  G "/Databases/[*]/RetentionPolicies/[*]/ShardGroups/[*]/DeletedAt" "epoch" "differs" "unreachable: a wall-clock stamp";
+  G "/Databases/[*]/RetentionPolicies/[*]/ShardGroups/[*]/TruncatedAt" "epoch" "differs" "unreachable: no registered command sets TruncatedAt";
+  G "/Databases/[*]/RetentionPolicies/[*]/ShardGroups/[*]/TruncatedAt" "before-int64-ns" "differs" "unreachable: no registered command sets TruncatedAt";
+  G "/Databases/[*]/RetentionPolicies/[*]/ShardGroups/[*]/TruncatedAt" "after-int64-ns" "differs" "unreachable: no registered command sets TruncatedAt";
+  G "/Databases/[*]/RetentionPolicies/[*]/IndexGroups/[*]/StartTime" "zero-time" "differs" "unreachable: no group starts in year 1 (0 on the wire is the epoch)";
+  G "/Databases/[*]/RetentionPolicies/[*]/IndexGroups/[*]/StartTime" "before-int64-ns" "differs" "see:C16-restore-wraps-early-group-start";
+  G "/Databases/[*]/RetentionPolicies/[*]/IndexGroups/[*]/StartTime" "after-int64-ns" "differs" "unreachable: instants of commands are int64 nanoseconds";
+  G "/Databases/[*]/RetentionPolicies/[*]/IndexGroups/[*]/EndTime" "zero-time" "differs" "unreachable: no group ends in year 1";
+  G "/Databases/[*]/RetentionPolicies/[*]/IndexGroups/[*]/EndTime" "before-int64-ns" "differs" "see:C16-restore-wraps-early-group-start";
+  G "/Databases/[*]/RetentionPolicies/[*]/IndexGroups/[*]/EndTime" "after-int64-ns" "differs" "unreachable: ends are capped at MaxNanoTime + 1";
+  G "/Databases/[*]/RetentionPolicies/[*]/IndexGroups/[*]/DeletedAt" "epoch" "differs" "unreachable: a wall-clock stamp";
+  G "/Databases/[*]/RetentionPolicies/[*]/Measurements/[*]/Options/ReadThreshold" "max-int32+1" "differs" "unreachable: the command carries an int32";
+  G "/Databases/[*]/RetentionPolicies/[*]/Measurements/[*]/Options/ReadThreshold" "max-int64" "differs" "unreachable: the command carries an int32";
+  G "/Databases/[*]/RetentionPolicies/[*]/Measurements/[*]/Options/ReadThreshold" "max-uint32+1" "differs" "unreachable: the command carries an int32";
+  G "/Databases/[*]/RetentionPolicies/[*]/Measurements/[*]/Options/ReadThreshold" "min-int32-1" "differs" "unreachable: the command carries an int32";
+  G "/Databases/[*]/RetentionPolicies/[*]/Measurements/[*]/Options/WriteThreshold" "max-int32+1" "differs" "unreachable: the command carries an int32";
+  G "/Databases/[*]/RetentionPolicies/[*]/Measurements/[*]/Options/WriteThreshold" "max-int64" "differs" "unreachable: the command carries an int32";
+  G "/Databases/[*]/RetentionPolicies/[*]/Measurements/[*]/Options/WriteThreshold" "max-uint32+1" "differs" "unreachable: the command carries an int32";
+  G "/Databases/[*]/RetentionPolicies/[*]/Measurements/[*]/Options/WriteThreshold" "min-int32-1" "differs" "unreachable: the command carries an int32";
+  G "/Databases/[*]/RetentionPolicies/[*]/Measurements/[*]/Options/StorageCapacity" "max-int32+1" "differs" "unreachable: the command carries an int32";
+  G "/Databases/[*]/RetentionPolicies/[*]/Measurements/[*]/Options/StorageCapacity" "max-int64" "differs" "unreachable: the command carries an int32";
+  G "/Databases/[*]/RetentionPolicies/[*]/Measurements/[*]/Options/StorageCapacity" "max-uint32+1" "differs" "unreachable: the command carries an int32";
+  G "/Databases/[*]/RetentionPolicies/[*]/Measurements/[*]/Options/StorageCapacity" "min-int32-1" "differs" "unreachable: the command carries an int32";
+  G "/MigrateEvents/[*]/preState" "*" "differs" "finding:C15-migrate-event-prestate-on-restore";
+  G "/MigrateEvents/[*]/currState" "max-int32+1" "differs" "unreachable: the command carries an int32";
+  G "/MigrateEvents/[*]/currState" "max-int64" "differs" "unreachable: the command carries an int32";
+  G "/MigrateEvents/[*]/currState" "max-uint32+1" "differs" "unreachable: the command carries an int32";
+  G "/MigrateEvents/[*]/currState" "min-int32-1" "differs" "unreachable: the command carries an int32";
+  G "/MigrateEvents/[*]/eventType" "max-int32+1" "differs" "unreachable: the command carries an int32";
+  G "/MigrateEvents/[*]/eventType" "max-int64" "differs" "unreachable: the command carries an int32";
+  G "/MigrateEvents/[*]/eventType" "max-uint32+1" "differs" "unreachable: the command carries an int32";
+  G "/MigrateEvents/[*]/eventType" "min-int32-1" "differs" "unreachable: the command carries an int32";
+  G "/MigrateEvents/[*]/pt/DBBriefInfo/Name" "*" "differs" "outside: balancer events; marshal writes the partition's own database name, which is what the stores send";
+  G "/MigrateEvents/[*]/pt/DBBriefInfo/Replicas" "max-int32+1" "differs" "unreachable: the command carries an int32";
+  G "/MigrateEvents/[*]/pt/DBBriefInfo/Replicas" "max-int64" "differs" "unreachable: the command carries an int32";
+  G "/MigrateEvents/[*]/pt/DBBriefInfo/Replicas" "max-uint32+1" "differs" "unreachable: the command carries an int32";
+  G "/MigrateEvents/[*]/pt/DBBriefInfo/Replicas" "min-int32-1" "differs" "unreachable: the command carries an int32"
+].
+Definition gap_matches (m : string * string * string) (g : string * string * string * string) : bool :=
+  match m, g with
+  | (ctx, cls, outc), (gctx, gcls, goutc, _) => String.eqb ctx gctx && (String.eqb gcls "*" || String.eqb cls gcls) && String.eqb outc goutc
+  end.
